@@ -133,6 +133,8 @@ func encPt(p Pt) rt.M {
 		if p.V > 0 {
 			v = 1
 		}
+	case "none":
+		v = 0 // the field is missing: there is no value
 	}
 	return rt.M{"t": p.T, "k": p.K, "v": v, "h": p.H, "i": p.I}
 }
@@ -287,6 +289,32 @@ func DecodeInBatch(b edge.BufferedBatchMessage) (Batch, error) {
 		out.Pts = append(out.Pts, p)
 	}
 	return out, nil
+}
+
+// DecodeInPoint: the same for a stream point observed at sink 'in'.
+func DecodeInPoint(pm edge.PointMessage) (string, Pt) {
+	p := Pt{T: tk(pm.Time()), H: pm.Tags()["h"], K: "none"}
+	if iv, ok := pm.Fields()["i"].(int64); ok {
+		p.I = int(iv)
+	}
+	switch x := pm.Fields()["x"].(type) {
+	case int64:
+		p.K, p.V = "int", int(x)
+	case float64:
+		p.K, p.V = "float", int(x)
+		if x != math.Trunc(x) {
+			p.K = "fx"
+		}
+	case string:
+		p.K = "str"
+		fmt.Sscanf(x, "s%d", &p.V)
+	case bool:
+		p.K = "bool"
+		if x {
+			p.V = 1
+		}
+	}
+	return pm.Tags()["g"], p
 }
 
 func errStrings(es []rt.ErrItem) []any {
